@@ -13,6 +13,7 @@ import (
 	"verifharness/internal/e3"
 	"verifharness/internal/ev"
 	"verifharness/internal/genlab"
+	"verifharness/internal/xspecs"
 	"verifharness/servlab"
 )
 
@@ -75,6 +76,19 @@ func Main(args []string) int {
 		}
 		jobs = append(jobs, j)
 		origin[key] = it.ID
+	}
+	for _, name := range xspecs.Names() {
+		if only != "" && !strings.HasPrefix(only, name+"|") {
+			continue
+		}
+		key := fmt.Sprintf("x%04d", len(jobs))
+		it := genlab.Item{ID: name, Text: string(xspecs.All()[name]), Name: "spec", Features: []string{"paths/client", "paths/server"}}
+		j, err := e3.JobFromItem(key, it)
+		if err != nil {
+			continue
+		}
+		jobs = append(jobs, j)
+		origin[key] = name
 	}
 	// one driver per batch: large packages (github, telegram) dominate compile time
 	batch := 12
